@@ -220,7 +220,23 @@ func c09GenOp(r *rand.Rand, doc any, o genOpts) rop {
 		op.Val = genVal(r, o, 2, false)
 	case "test":
 		op.HasVal = r.Intn(15) != 0
-		if v, ok := rget(doc, op.Path); ok && r.Intn(2) == 0 {
+		if v, ok := rget(doc, op.Path); ok && r.Intn(4) == 0 {
+			// a look-alike of another type: the text that spells the number/boolean, or the reverse
+			switch x := v.(type) {
+			case int:
+				op.Val = strconv.Itoa(x)
+			case bool:
+				op.Val = fmt.Sprint(x)
+			case string:
+				if n, err := strconv.Atoi(x); err == nil {
+					op.Val = n
+				} else {
+					op.Val = deepCopy(v)
+				}
+			default:
+				op.Val = deepCopy(v)
+			}
+		} else if ok && r.Intn(2) == 0 {
 			op.Val = deepCopy(v)
 		} else {
 			op.Val = genVal(r, o, 2, false)
